@@ -241,6 +241,9 @@ func runHeader(c headerCase) harness.Result {
 			continue
 		}
 		// accepted with n
+		if n < 8 {
+			return harness.Fail("header %x: classifier accepted it with an expected length of %d bytes, shorter than the 8 bytes it needs to decide (length field %d)", hdr, n, c.Length)
+		}
 		accepted++
 		if !c.Allow && !spec.IsSupported(uint8(fc)) {
 			return harness.Fail("header %x: unsupported function %d accepted with flag off", hdr, fc)
